@@ -129,7 +129,7 @@ CALLEE_CLASSES = {
     "RefCountDisposable": ("monitor", "RefCountDisposable"), "Subject": ("class", "Subject"),
 }
 #: properties whose units are function / class proofs against these contracts (the others own the classes or do not use them)
-CALLEE_USERS = ("C05", "C06", "C09", "C10", "C11", "C12", "C13", "C15", "C16", "C17", "C18", "C19", "C24", "C40")
+CALLEE_USERS = ("C05", "C06", "C09", "C10", "C11", "C12", "C13", "C14", "C15", "C16", "C17", "C18", "C19", "C24", "C25", "C40")
 
 
 #: properties decided by proofs about one subscription of one operator application: the frame condition that carries them to
@@ -180,7 +180,7 @@ def callee_units(prop, have):
         except (OSError, SyntaxError):
             continue
         for n in ast.walk(tree):
-            if isinstance(n, ast.ImportFrom) and n.module and n.module.startswith("reactivex"):
+            if isinstance(n, ast.ImportFrom) and ((n.module and n.module.startswith("reactivex")) or n.level > 0):
                 for a in n.names:
                     if a.name in CALLEE_CLASSES and a.name not in wanted:
                         wanted.append(a.name)
